@@ -137,6 +137,18 @@ keyed('reflink_unchecked_sync', 'reflink_unchecked', 'mut', 'C05 C15 C18 C20')
 keyed('hard_link_sync', 'hard_link', 'mut', 'C01 C05 C15 C18 C20')
 keyed('hard_link_unchecked_sync', 'hard_link_unchecked', 'mut', 'C05 C15 C18 C20')
 
+# ---- async twins (after R2 they have the shape of their _sync counterparts) --------------
+fwd('read_hash', 'read', 'ro', None, 'C01 C02 C12 C15 C18 C20')
+fwd('copy_hash', 'copy', 'mut', None, 'C01 C12 C15 C18 C20')
+fwd('copy_hash_unchecked', 'copy_unchecked', 'mut', None, 'C12 C15 C18 C20')
+fwd('reflink_hash', 'reflink', 'mut', None, 'C01 C12 C15 C18 C20')
+keyed('read', 'read', 'ro', 'C01 C02 C05 C12 C15 C18 C20')
+keyed('copy', 'copy', 'mut', 'C01 C05 C12 C15 C18 C20')
+keyed('copy_unchecked', 'copy_unchecked', 'mut', 'C05 C12 C15 C18 C20')
+keyed('reflink', 'reflink', 'mut', 'C01 C05 C12 C15 C18 C20')
+keyed('reflink_unchecked', 'reflink_unchecked', 'mut', 'C05 C12 C15 C18 C20')
+keyed('hard_link', 'hard_link', 'mut', 'C01 C05 C12 C15 C18 C20')
+
 P('''unit get::metadata_sync
   file get.rs
   at fn:metadata_sync
@@ -223,5 +235,40 @@ unit get::SyncReader::open
     index_ok(*w, cache@, key@) && r is Ok ==> entry_of(w.fs, cache@, key@) is Some
       && crate::content::read::reader_for(r->Ok_0.reader, w.fs, cache@, entry_of(w.fs, cache@, key@)->Some_0.integrity@) && r->Ok_0.reader.fd@.pos == 0
 ''')
-open(os.path.join(HERE, 'get.vc'), 'w').write('\n'.join(out) + '\n')
-print('wrote get.vc', len(out), 'lines')
+s = '\n'.join(out) + '\n'
+
+def twin(unit_id, at, tid, subs=''):
+    global s
+    marker = f'unit {unit_id}\n  file get.rs\n'
+    i = s.index(marker)
+    j = s.index('\n', i + len(marker))
+    s = s[:j] + f'\n  twin {at} | {tid} | {subs}' + s[j:]
+
+twin('get::metadata_sync', 'fn:metadata', 'get::metadata', 'metadata_sync=>metadata')
+twin('get::exists_sync', 'fn:exists', 'get::exists', 'exists_sync=>exists')
+R = 'crate::content::read::reader_wf=>crate::content::read::areader_wf ; crate::content::read::reader_for=>crate::content::read::areader_for ; SyncReader.=>Reader.'
+twin('get::SyncReader::check', 'impl:Reader/check', 'get::Reader::check', R)
+twin('get::SyncReader::open_hash', 'impl:Reader/open_hash', 'get::Reader::open_hash', R)
+twin('get::SyncReader::open::inner', 'impl:Reader/open/inner', 'get::Reader::open::inner', R)
+twin('get::SyncReader::open', 'impl:Reader/open', 'get::Reader::open', R)
+s = s.replace('  keep SyncReader\n', '  keep SyncReader Reader\n')
+s += '''
+unit get::Reader::poll_read
+  file get.rs
+  at impl:AsyncRead for Reader/poll_read
+  inherent
+  ret r
+  props C01 C12 C20
+  requires
+    crate::content::read::areader_wf(old(self).reader)
+  ensures [C01.Reader.poll_read.hands_out_what_it_hashes]
+    crate::content::read::areader_wf(final(self).reader) && final(self).reader.fd@.content == old(self).reader.fd@.content
+      && final(self).reader.checker@.sri == old(self).reader.checker@.sri
+  ensures [C01.Reader.poll_read.bytes]
+    r is Ready && r->Ready_0 is Ok ==> r->Ready_0->Ok_0 <= old(buf)@.len() && final(self).reader.fd@.pos == old(self).reader.fd@.pos + r->Ready_0->Ok_0
+      && final(buf)@.subrange(0, r->Ready_0->Ok_0 as int) == old(self).reader.fd@.content.subrange(old(self).reader.fd@.pos, old(self).reader.fd@.pos + r->Ready_0->Ok_0)
+  ensures [C01.Reader.poll_read.eof]
+    r is Ready && r->Ready_0 is Ok && r->Ready_0->Ok_0 == 0 && old(buf)@.len() > 0 ==> final(self).reader.fd@.pos == final(self).reader.fd@.content.len()
+'''
+open(os.path.join(HERE, 'get.vc'), 'w').write(s)
+print('wrote get.vc', len(s.split('\n')), 'lines')
